@@ -216,9 +216,11 @@ def match(seq, sub, *, rf='fwd',
         sub = 'UAG|UAA|UGA|TAG|TAA|TGA'
     if gap is not None:
         gapstr = f'[{gap}]*'
-        sub = ''.join(ch + (gapstr if ((ch.isalpha() or ch=='.') and i+1 < len(sub) and
-                                       (sub[i+1].isalpha() or sub[i+1] == '.')) else '')
-                      for i, ch in enumerate(sub))
+        # a character class '[...]' counts as one letter and is never split
+        units = re.findall(r'\[\^?\]?[^\]]*\]|.', sub, flags=re.S)
+        isletter = lambda u: u.isalpha() or u == '.' or (len(u) > 1 and u[0] == '[')
+        sub = ''.join(u + (gapstr if (isletter(u) and i+1 < len(units) and isletter(units[i+1])) else '')
+                      for i, u in enumerate(units))
     if gap is None or rf is None:
         gaps = None
     else:
